@@ -1208,7 +1208,7 @@ def check_c20(tier, seed, chk):
     t0 = time.time()
     cases = model["cases"]
     fams = sorted(k for k, v in model["families"].items() if v == "shapes")
-    extra = ["ign", "srt", "nest"] + sorted(k for k, v in model["families"].items() if v == "forms")[:: 3 if tier == "quick" else 1]
+    extra = ["k", "ign", "srt", "nest"] + sorted(k for k, v in model["families"].items() if v == "forms")[:: 3 if tier == "quick" else 1]
     configs = [
         ("bench", ["--bench", "--timer", "tsc", "--sample-count", "3", "--sample-size", "2"], {"sample_count": 3, "sample_size": 2}),
         ("test", ["--test"], {}),
@@ -1668,6 +1668,9 @@ def check_alloc(tier, seed, chk, prop):
                     "max alloc count": zero, "max alloc bytes": zero}
             if style == "alloc_exact":
                 what = "each benchmarked call makes exactly one 32-byte allocation on its own thread (the input's 64 bytes are allocated before the start, outputs are dropped after the end)"
+                want = dict(want, **{"alloc count": [1.0] * 4, "alloc bytes": [32.0] * 4, "max alloc count": [1.0] * 4, "max alloc bytes": [32.0] * 4})
+            elif style == "plain_alloc_out":
+                what = "each call of the benchmarked function makes one 32-byte allocation and returns it; the output is dropped after the end of the sample"
                 want = dict(want, **{"alloc count": [1.0] * 4, "alloc bytes": [32.0] * 4, "max alloc count": [1.0] * 4, "max alloc bytes": [32.0] * 4})
             elif style == "values_free_only":
                 what = "each benchmarked call only frees its 64-byte input (the peak relative to the start stays zero)"
